@@ -52,3 +52,38 @@ Print Assumptions C14_stable.
 Print Assumptions C14_create_node.
 Print Assumptions C14_reach_wf.
 Print Assumptions C14_hist_indep.
+
+(** ** the memoised recursion itself.  [and_i] (Interner/AndModel.v) is the crate's [InternerGuard::and]
+    on ids: shortcuts, memo cache keyed by the ordered pair, [Edges::map] / [apply] / [apply_ranges] with
+    complemented edges, [create_node], cache insertion, the state threaded through the children in order.
+    Whatever the store and whatever (correct) cache entries exist, it returns exactly the id that
+    "unfold both operands, apply the L1 operation, intern the result" yields, without adding anything
+    that interning would not add - so the abstraction used by [mstep] / [C14_hist_indep] is sound, and the
+    cache can never change an answer.  [SOK0 s] = store invariant + every cache entry is correct (true of
+    the empty cache and preserved, [and_i_spec0]); fuel = rank x + rank y + 1 suffices. *)
+From PV Require Import Interner.AndModel Interner.AndProofs.
+Theorem C14_and_refines : forall (fuel : nat) (s : mist) (x y : nid),
+  SOK0 s -> valid (length (fst s)) x -> valid (length (fst s)) y -> enough_fuel x y fuel ->
+  let '(s', r) := and_i fuel s x y in
+  intern (fst s') (m_and (unfold (fst s) x) (unfold (fst s) y)) = (fst s', r).
+Proof. exact and_i_refines. Qed.
+Theorem C14_or_refines : forall (fuel : nat) (s : mist) (x y : nid),
+  SOK0 s -> valid (length (fst s)) x -> valid (length (fst s)) y -> enough_fuel x y fuel ->
+  let '(s', r) := or_i fuel s x y in
+  intern (fst s') (m_or (unfold (fst s) x) (unfold (fst s) y)) = (fst s', r).
+Proof. exact or_i_refines. Qed.
+Theorem C14_and_invariant : forall (fuel : nat) (s : mist) (x y : nid),
+  SOK0 s -> valid (length (fst s)) x -> valid (length (fst s)) y -> enough_fuel x y fuel ->
+  let '(s', r) := and_i fuel s x y in
+  SOK0 s' /\ aext (fst s) (fst s') /\ valid (length (fst s')) r /\
+  unfold (fst s') r = tand (unfold (fst s) x) (unfold (fst s) y).
+Proof. exact (and_i_spec0 (var:=var) (val:=val)). Qed.
+Theorem C14_cache_irrelevant : forall (fuel : nat) (s : mist) (x y : nid),
+  SOK0 s -> valid (length (fst s)) x -> valid (length (fst s)) y -> enough_fuel x y fuel ->
+  let '(s1, r1) := and_i fuel s x y in let '(s2, r2) := and_i fuel (fst s, []) x y in
+  unfold (fst s1) r1 = unfold (fst s2) r2.
+Proof. exact (and_i_cold_cache (var:=var) (val:=val)). Qed.
+Print Assumptions C14_and_refines.
+Print Assumptions C14_or_refines.
+Print Assumptions C14_and_invariant.
+Print Assumptions C14_cache_irrelevant.
